@@ -238,6 +238,18 @@ func candidates(l irgen.Term) []irgen.Term {
 			}
 		}
 	case "enum":
+		// a member-sequence enum loses one member (delete a child)
+		for _, pre := range []string{"seq:", "iseq:"} {
+			if strings.HasPrefix(l.A, pre) {
+				ms := strings.Split(strings.TrimPrefix(l.A, pre), ",")
+				for i := range ms {
+					if len(ms) > 1 {
+						rest := append(append([]string{}, ms[:i]...), ms[i+1:]...)
+						out = append(out, irgen.Enum(pre+strings.Join(rest, ",")))
+					}
+				}
+			}
+		}
 		if l.A != "str" {
 			out = append(out, irgen.Enum("str"))
 		}
@@ -354,6 +366,70 @@ func terms(thorough bool) []irgen.Term {
 	all = append(all, wrap(dg)...)
 	all = append(all, wrap(irgen.Disj(irgen.Const("digits"), irgen.Const("digits2"), irgen.Null()))...)
 	all = append(all, irgen.Disj(irgen.Const("digits"), irgen.Enum("strnum")), irgen.Disj(irgen.Const("digits"), irgen.Const("str")))
+	// enums as member SEQUENCES: every sequence of 1..3 members over the member
+	// alphabet {plain name, numeric name, negative numeric name}, string- and
+	// int-typed (member order and mixtures: "a,1", "1,a", "1,a,-2", ...)
+	alphabet := []string{"a", "1", "-2"}
+	var seqs [][]string
+	for _, a := range alphabet {
+		seqs = append(seqs, []string{a})
+		for _, b := range alphabet {
+			if b == a {
+				continue
+			}
+			seqs = append(seqs, []string{a, b})
+			for _, c := range alphabet {
+				seqs = append(seqs, []string{a, b, c + "x"}) // third member distinct by construction
+			}
+		}
+	}
+	for _, sq := range seqs {
+		if len(sq) == 3 { // "1x" is not numeric: use a second numeric / plain token instead
+			switch sq[2] {
+			case "ax":
+				sq[2] = "b"
+			case "1x":
+				sq[2] = "5"
+			case "-2x":
+				sq[2] = "-7"
+			}
+		}
+		for _, pre := range []string{"seq:", "iseq:"} {
+			all = append(all, wrap(irgen.Enum(pre+strings.Join(sq, ",")))...)
+		}
+	}
+	// unions of string constants in every order, plain and digit-only mixed
+	// (DisjunctionOfConstantsToEnum derives member names from the values)
+	cs := []irgen.Term{irgen.Const("str"), irgen.Const("digits"), irgen.Const("digits2")}
+	for i, a := range cs {
+		for j, b := range cs {
+			if i == j {
+				continue
+			}
+			all = append(all, wrap(irgen.Disj(a, b))...)
+			for k, c := range cs {
+				if k != i && k != j {
+					all = append(all, wrap(irgen.Disj(a, b, c))...)
+				}
+			}
+		}
+	}
+	// deep nesting over a reduced leaf set: constructs reached through containers
+	// inside objects that an earlier step of the chain created itself
+	// (Root.f.options.thresholds[] ...). Depth 4 over {string,int64,enum} with
+	// every wrapper, depth 5 (quick) / 6 (thorough) towers over {string}.
+	if !thorough {
+		inner := []irgen.Term{irgen.S("string"), irgen.S("int64"), irgen.Enum("str")}
+		all = append(all, irgen.Types(irgen.Config{Depth: 4, Leaves: inner, InnerLeaves: inner})...)
+	}
+	towerDepth := 5
+	if thorough {
+		towerDepth = 6
+	}
+	all = append(all, irgen.Types(irgen.Config{
+		Depth: towerDepth, Leaves: []irgen.Term{irgen.S("string")}, DisjWith: []irgen.Term{irgen.S("int64")},
+		Wrappers: []string{"array", "map", "struct-req", "struct-opt", "disj-null", "disj", "inter"},
+	})...)
 	// maps indexed by an anonymous struct / a union
 	all = append(all, irgen.MapIdx(irgen.Struct1("a", true, irgen.S("string")), irgen.S("string")), irgen.MapIdx(irgen.Disj(irgen.S("string"), irgen.S("int64")), irgen.S("string")))
 	// discriminated union of references, three branches and with null
@@ -777,7 +853,7 @@ func main() {
 		"per_language_clause_repaired_by_chain":    repaired,
 		"per_language_clause_failing_cases":        failing,
 		"distinct_outcome_classes":                 len(outcomeClasses),
-		"explanation":                              "every type term of grammar I (depth " + depth + "; plus flat 3-branch unions with null, maps with non-string index types, two-field structs; closed under one-step reductions) is placed as the type of object Root, as a required and as an optional field of struct Root, as a required field next to an alias object Al = ref(p.S), and (terms up to the multi-occurrence depth) TWICE or THRICE in one schema with different requiredness in both orders: two/three fields of Root, or Root and a second object Zed (package p with support objects S,T,E,A,K); for each and each language the real codegen.Pipeline.ContextForLanguage is executed (language.CompilerPasses() through compiler.Passes.Process); chain errors are counted and not judged, panics are recorded as crash:<pass>; on success the resulting schemas are judged by a complete walker (fields, array elements, map index and value, union and intersection branches, enum member types); failing cases are re-run pass by pass to name the pass after which the construct sits where it ends up",
+		"explanation":                              "every type term of grammar I (depth " + depth + "; plus depth 4 over {string,int64,enum} and towers of depth 5 (quick) / 6 (thorough) over {string}; enums as member sequences of length 1..3 over {plain, numeric, negative} names, string- and int-typed; unions of plain/digit-only string constants in every order; flat 3-branch unions with null, maps with non-string index types, two-field structs; closed under one-step reductions) is placed as the type of object Root, as a required and as an optional field of struct Root, as a required field next to an alias object Al = ref(p.S), and (terms up to the multi-occurrence depth) TWICE or THRICE in one schema with different requiredness in both orders: two/three fields of Root, or Root and a second object Zed (package p with support objects S,T,E,A,K); for each and each language the real codegen.Pipeline.ContextForLanguage is executed (language.CompilerPasses() through compiler.Passes.Process); chain errors are counted and not judged, panics are recorded as crash:<pass>; on success the resulting schemas are judged by a complete walker (fields, array elements, map index and value, union and intersection branches, enum member types); failing cases are re-run pass by pass to name the pass after which the construct sits where it ends up",
 	}
 	if !exhaustive {
 		cov["completed_bound"] = fmt.Sprintf("%d of %d cases in work order (smallest first) before the internal deadline", completed, len(cases))
